@@ -2124,10 +2124,12 @@ class _GroupElem(ABC):
                 else:
                     # This is the most time-consuming method.
                     # We need to construct the Jacobian matrices here.
+                    N_tild = self._N()
+
                     def Eval(xi: _types.FloatArray, xP: _types.FloatArray):
-                        dN = _GroupElem._Eval_Functions(dN_tild, xi.reshape(1, -1))
-                        F = dN[0] @ coordElemBase[:, :dim]  # jacobian matrix [J]
-                        J = x0 + (xi - xiOrigin) @ F - xP  # cost function
+                        # x(xi) = sum_i N_i(xi) x_i, the isoparametric map itself
+                        N = _GroupElem._Eval_Functions(N_tild, xi.reshape(1, -1))
+                        J = N[0, 0] @ coordElemBase[:, :dim] - xP  # cost function
                         return J
 
                     xiP = []
